@@ -678,6 +678,16 @@ impl A9 {
 /// evaluations) is done once per (sk, password) and kept in /verif/build/cache; the ShortBlob
 /// scenarios all use one fixed (sk, password) pair so that the cache hits.
 fn zero_tail_salt(sk: &[u8; 32], password: &[u8]) -> Option<[u8; 32]> {
+    // one search per process even when the cache file is missing (all workers share the fixture)
+    static ONCE: std::sync::OnceLock<Option<[u8; 32]>> = std::sync::OnceLock::new();
+    let (fsk, fpw) = short_blob_fixture();
+    if *sk == fsk && password == &fpw[..] {
+        return *ONCE.get_or_init(|| zero_tail_salt_search(sk, password));
+    }
+    zero_tail_salt_search(sk, password)
+}
+
+fn zero_tail_salt_search(sk: &[u8; 32], password: &[u8]) -> Option<[u8; 32]> {
     let tag = crate::rng::fnv64(&[&sk[..], password].concat());
     let path = format!("{}/build/cache/zero-tail-{:016x}.hex", crate::root(), tag);
     if let Ok(t) = std::fs::read_to_string(&path) {
